@@ -218,7 +218,8 @@ func checkC12(c *Ctx) {
 				if gen {
 					// generated bodies use the C02 environment
 					main := "{namespace app.main}\n{alias lib.deep}\n/**\n * @param? x\n * @param? y\n * @param? c\n * @param? l\n * @param? m\n */\n{template .entry}\n" + body + "{if false}{$x}{$y}{$c}{$l}{$m}{/if}\n{/template}\n"
-					files = map[string]string{"main.soy": main, "lib.soy": libFiles()[0].src()}
+					files = map[string]string{"main.soy": main}
+					libSrcs(files, libFiles())
 					dd = c02Data()[4]
 					src = main
 				} else {
@@ -239,7 +240,7 @@ func runFaults(c *Ctx, files map[string]string, d data.Map, withBundle, gen bool
 	var cerr error
 	vrt.Run(vrt.Options{Fuel: 5000000}, func() {
 		b := soy.NewBundle()
-		for _, n := range []string{"main.soy", "lib.soy"} {
+		for _, n := range []string{"main.soy", "lib.soy", "sub.soy"} {
 			if s, ok := files[n]; ok {
 				b = b.AddTemplateString(n, s)
 			}
